@@ -214,7 +214,7 @@ func (rt *runtime) convertNumeric(v Value, t reflect.Type) reflect.Value {
 	val := reflect.ValueOf(v.export())
 
 	if val.Kind() == t.Kind() {
-		return val
+		return val.Convert(t) // t may be a defined type (type MyInt int64)
 	}
 
 	if val.Kind() == reflect.Interface {
@@ -226,7 +226,7 @@ func (rt *runtime) convertNumeric(v Value, t reflect.Type) reflect.Value {
 		f64 := val.Float()
 		switch t.Kind() {
 		case reflect.Float64:
-			return reflect.ValueOf(f64)
+			return reflect.ValueOf(f64).Convert(t)
 		case reflect.Float32:
 			if reflect.Zero(t).OverflowFloat(f64) {
 				panic(rt.panicRangeError("converting float64 to float32 would overflow"))
@@ -413,11 +413,11 @@ func (rt *runtime) convertCallParameter(v Value, t reflect.Type) (reflect.Value,
 
 	switch tk {
 	case reflect.Bool:
-		return reflect.ValueOf(v.bool()), nil
+		return reflect.ValueOf(v.bool()).Convert(t), nil
 	case reflect.String:
 		switch v.kind {
 		case valueString, valueNumber:
-			return reflect.ValueOf(v.string()), nil
+			return reflect.ValueOf(v.string()).Convert(t), nil
 		}
 	case reflect.Int, reflect.Int8, reflect.Int16, reflect.Int32, reflect.Int64, reflect.Uint, reflect.Uint8, reflect.Uint16, reflect.Uint32, reflect.Uint64, reflect.Float32, reflect.Float64:
 		if v.kind == valueNumber {
@@ -591,7 +591,7 @@ func (rt *runtime) convertCallParameter(v Value, t reflect.Type) (reflect.Value,
 			}
 		}
 
-		return reflect.ValueOf(v.String()), nil
+		return reflect.ValueOf(v.String()).Convert(t), nil
 	}
 
 	if v.kind == valueString {
